@@ -246,6 +246,11 @@ type Case struct {
 	// body starts with a marker; the step limit of the generators does not apply, the model is asked through the
 	// iteration theorem (`iter`), and reports show the first iteration that departs instead of the whole trace.
 	Long bool `json:"long,omitempty"`
+	// Share: the calls `f` of the program whose Via starts with "h" are calls of ONE function h($w) (method of one
+	// object / static method / closure): their bodies, equal up to the leaves that differ, are rendered as one body in
+	// which a differing leaf is `if ($w == j) { … }` — the try statements of the body are the SAME nodes in every call
+	// (rerun.go). The model, the spec and the reference interpreter see the program as it stands: every call a fresh copy.
+	Share bool `json:"sh,omitempty"`
 }
 
 // levelMul: $n * levelMul + number
@@ -280,6 +285,8 @@ func modelBlock(sb *strings.Builder, b []Stmt) {
 			fmt.Fprintf(sb, "t%d.%d ", s.Cls, s.N)
 		case "rt", "gp", "b", "c":
 			sb.WriteString(s.K + " ")
+		case "ie": // an error the interpreter raises itself: object-less, like the host failure (measured by probeKinds)
+			sb.WriteString("gp ")
 		case "r":
 			fmt.Fprintf(sb, "r%d ", s.N)
 		case "l":
@@ -333,6 +340,9 @@ type renderer struct {
 	nfn   int
 	nloop int
 	rec   bool // re-entrant form
+	// shared rendering (Case.Share): how the j-th call of the shared function is written (format with %d), calls so far
+	share  string
+	nshare int
 }
 
 // a number as the script writes it where an expression is allowed
@@ -381,6 +391,8 @@ func (r *renderer) block(sb *strings.Builder, b []Stmt, ind string, catchVar str
 			fmt.Fprintf(sb, "%sthrow %s;\n", ind, v)
 		case "gp":
 			fmt.Fprintf(sb, "%sverif_panic();\n", ind)
+		case "ie":
+			fmt.Fprintf(sb, "%s%s\n", ind, ieKinds[s.N%len(ieKinds)].code)
 		case "r":
 			fmt.Fprintf(sb, "%sreturn %s;\n", ind, r.num(s.N))
 		case "b":
@@ -394,6 +406,12 @@ func (r *renderer) block(sb *strings.Builder, b []Stmt, ind string, catchVar str
 			r.block(sb, s.Body, ind+"  ", catchVar)
 			fmt.Fprintf(sb, "%s}\n", ind)
 		case "f":
+			if r.share != "" && strings.HasPrefix(s.Via, "h") {
+				fmt.Fprintf(sb, "%s$r = %s;\n", ind, fmt.Sprintf(r.share, r.nshare))
+				r.nshare++
+				fmt.Fprintf(sb, "%secho \"R\", is_int($r) ? $r : \"-\", \";\";\n", ind)
+				continue
+			}
 			r.nfn++
 			k := r.nfn
 			param, arg := "", ""
@@ -472,7 +490,12 @@ func (r *renderer) block(sb *strings.Builder, b []Stmt, ind string, catchVar str
 
 func (c Case) script() string {
 	r := &renderer{g: c.G, rec: c.rec()}
+	sharedDecl, sharedInit := "", ""
+	if c.Share && !r.rec {
+		sharedDecl, sharedInit = r.shared(c.Prog)
+	}
 	var body strings.Builder
+	body.WriteString(sharedInit)
 	r.block(&body, c.Prog, "", "")
 	var named []string
 	for k, f := range c.Fns {
@@ -486,6 +509,9 @@ func (c Case) script() string {
 	sb.WriteString("<?php\n")
 	sb.WriteString(c.G.php())
 	sb.WriteString(prelude)
+	if hasKind(c.Prog, "ie") {
+		sb.WriteString(iePrelude)
+	}
 	for _, f := range named {
 		sb.WriteString(f)
 	}
@@ -494,6 +520,7 @@ func (c Case) script() string {
 	for i := len(r.funcs) - 1; i >= 0; i-- {
 		sb.WriteString(r.funcs[i])
 	}
+	sb.WriteString(sharedDecl)
 	if r.rec {
 		fmt.Fprintf(&sb, "$n = %d;\n", c.Depth)
 	}
